@@ -7,6 +7,7 @@ VARIABLES s
 AtomRecs == [m : Models, alt : Alts, key : Keys, resn : ResNames, nm : AtomNames]
 MC_Keys == { <<"A", 1, " ">>, <<"A", 2, " ">> }
 MC_KeysGen == { <<"A", 1, " ">>, <<"A", 1, "A">>, <<"A", 2, " ">> }
+MC_KeysChains == { <<"A", 1, " ">>, <<"B", 1, " ">>, <<"B", 2, " ">> }   \* two chains that share a residue number
 MC_KeysTwins == { <<"A", 1, " ">>, <<"A", 1, "A">> }
 (* well-formed: one residue name per (conformation, position); no duplicated atom in a conformation *)
 WF(q) == /\ \A i, j \in 1..Len(q) : (i # j /\ ConfOf(q[i]) = ConfOf(q[j]) /\ q[i].key = q[j].key) =>
